@@ -374,7 +374,7 @@ Qed.
 
 Theorem reach_in_TS s : f_out (fq_world sc) = [] -> reach_in sc s -> TS s.
 Proof.
-  intro O0. induction 1 as [s WF E|s o s' _ IH E|s t k p s' _ IH E|s s' _ IH E|s d en' _ IH E].
+  intro O0. induction 1 as [s WF E|s o s' _ IH E|s t k p s' _ IH E|s s' _ IH E|s d en' _ IH E|s d ups s' _ IH E].
   - unfold do_fxop in E. cbn [fst snd] in E.
     apply (TS_fin wsd false (fq_world sc) init_env (init_world (fl_fuel (fq_world sc)) (now (init_env (A:=fact))) (fq_world sc)) s O0); [|apply RJ_init_world; reflexivity|exact E].
     split; [split; constructor|]. intros d _ _. rewrite (pristine_idle _ WF). reflexivity.
@@ -391,6 +391,8 @@ Proof.
     + destruct EE as [EQ EP]. split; cbn; [|exact EP].
       apply (Forall_perm fact evok _ _ (Permutation_sym (insort_perm fact _ (queue (snd s))))). constructor; [|exact EQ]. intros d0 X. discriminate.
     + intros d' NS TK. unfold cnt. cbn. rewrite cntl_insort. unfold isfin at 1. cbn. rewrite andb_false_r. rewrite <- (H d' NS TK). unfold cnt. lia.
+  - destruct IH as [O H]. unfold do_fxop in E.
+    apply (TS_fin wsd false (fst s) (snd s) (late_create (fl_fuel (fst s)) (now (snd s)) (fst s) d ups) s' O H); [apply RJ_late_create|exact E].
 Qed.
 
 (** * C06: one live timer per part in process *)
